@@ -1,3 +1,4 @@
+\* MUST FAIL (NeverExempt): self-check of the model checking, not run by bin/check
 \* one device type x 3 minors (totals 0 / 100), 2 pods, requests 50 / 100 percent of 1..2 devices; complete state space
 SPECIFICATION MSpec
 CONSTANTS
@@ -15,4 +16,5 @@ INVARIANT InvC
 INVARIANT InvF
 INVARIANT InvU
 INVARIANT InvAK
+INVARIANT NeverExempt
 CHECK_DEADLOCK FALSE
